@@ -87,8 +87,8 @@ static LD unit_err(const Mat& u) {
 
 // ---------------------------------------------------------------- bookkeeping
 struct Grp {
-   long n = 0, nfail = 0, seq = 0, fresh = 0;
-   double rec = 0, uni = 0, val = 0;
+   long n = 0, nfail = 0, seq = 0, fresh = 0, known = 0;
+   double rec = 0, uni = 0, val = 0, ebr = 0;
    std::map<std::string, long> cls, fk;
 };
 static std::map<std::string, Grp> grps;
@@ -117,7 +117,8 @@ enum Order { DESC, ASC, ABSASC, NONE };
 
 struct Tol { double rec, uni; };
 static const Tol TIGHT = {1e-12, 1e-12};
-static const Tol DIRECT3 = {1e-7, 1e-8};   // closed-form 3x3 real solver (DESIGN C12)
+// (DESIGN 3/C12 had a second class 1e-7 / 1e-8 for Eigen's closed-form 3x3 solver; since /repo ef70766 no instantiation
+//  uses it, every path is held to the Jacobi/QR tolerance and a re-introduced computeDirect for N == 3 fails here)
 
 static std::string classify(const std::vector<double>& s, bool anyneg) {
    double mx = 0; for (double x : s) mx = std::max(mx, std::abs(x));
@@ -226,6 +227,30 @@ static void chk_vec_bounds(const std::string& g, const char* kind, const Mat& m,
 }
 template <class Arr> static std::vector<double> vec(const Arr& a) { std::vector<double> v; for (int i = 0; i < a.size(); i++) v.push_back(a(i)); return v; }
 
+// ---------------------------------------------------------------- eigen/singular value error against the returned bound
+// For the constructed sets the exact spectrum is known (up to the rounding of the matrix entries, <= eps*|m|).  The header
+// documents s_errbd / w_errbd as the (approximate, LAPACK users' guide) error bound of the returned values: the error must
+// stay within ERRBD_SLACK times that bound.
+static int known_n = 0; static double known_d[4];
+static bool known_abs_only = false;   // complex-basis U D U^T: only the singular values |d| are known
+static const double ERRBD_SLACK = 100;
+static void chk_known_values(const std::string& g, const Mat& m, std::vector<double> got, double errbd, bool use_abs) {
+   if (known_n != (int)got.size()) return;
+   std::vector<double> ex(known_d, known_d + known_n);
+   if (use_abs || known_abs_only) { for (auto& x : ex) x = std::abs(x); for (auto& x : got) x = std::abs(x); }
+   std::sort(ex.begin(), ex.end()); std::sort(got.begin(), got.end());
+   double err = 0, mx = 0;
+   for (size_t i = 0; i < ex.size(); i++) { double e = std::abs(got[i] - ex[i]); if (!(e <= err)) err = e; mx = std::max(mx, std::abs(ex[i])); }
+   Grp& G = grps[g]; G.known++;
+   // rounding of the constructed entries moves the true spectrum by up to ~eps*max|d|
+   const double allowed = ERRBD_SLACK * std::max(errbd, 0.0) + 4 * std::numeric_limits<double>::epsilon() * mx;
+   double ratio = errbd > 0 ? err / errbd : (err > 0 ? 1e300 : 0.0);
+   if (!(err <= allowed)) {
+      double rel = mx > 0 ? err / mx : err;
+      fail(g, rel <= 1e-10 ? "value-error-exceeds-errbd:rel<=1e-10" : (rel <= 1e-7 ? "value-error-exceeds-errbd:rel<=1e-7" : "value-error-exceeds-errbd:rel>1e-7"), ratio, m);
+   } else if (ratio > G.ebr && ratio < 1e299) G.ebr = ratio;
+}
+
 // ---------------------------------------------------------------- purity helpers
 template <class MT> static MT other_matrix(const MT& m) {   // a different matrix of the same structure (symmetry is preserved)
    MT a = m.reverse();
@@ -333,6 +358,7 @@ static void run2(const Eigen::Matrix<S, M, N>& m, Tol tol) {
    double smax = 0; for (double x : vec(s)) smax = std::max(smax, x);
    if (!(std::abs(e4 - std::numeric_limits<double>::epsilon() * smax) <= 1e-9 * std::max(e4, 1e-300) || (e4 == 0 && smax == 0)))
       fail(g, "s_errbd-value", e4, mm);
+   chk_known_values(g, mm, vec(s4), e4, true);
    int small_pos = L::ord == DESC ? K - 1 : 0;
    chk_vec_bounds(g, "u_errbd", mm, vec(s4), e4, vec(ue), M > N ? small_pos : -1);
    chk_vec_bounds(g, "v_errbd", mm, vec(s4), e4, vec(ve), M < N ? small_pos : -1);
@@ -409,6 +435,7 @@ static void run1(const Eigen::Matrix<S, N, N>& m, Tol tol) {
    double smax = 0; for (double x : vec(s)) smax = std::max(smax, std::abs(x));
    if (!(std::abs(e4 - std::numeric_limits<double>::epsilon() * smax) <= 1e-9 * std::max(e4, 1e-300) || (e4 == 0 && smax == 0)))
       fail(g, "s_errbd-value", e4, mm);
+   chk_known_values(g, mm, vec(s4), e4, !herm);
    // values that define the gaps: signed eigenvalues for the eigen-solver based paths
    std::vector<double> sv = vec(s4);
    if ((L::conv == SYM_U || L::conv == SYM_HK) && std::is_same<S, double>::value) {
@@ -458,7 +485,7 @@ static void run1(const Eigen::Matrix<S, N, N>& m, Tol tol) {
 }
 
 // ---------------------------------------------------------------- families
-template <int N> static Tol herm_tol_real() { return N == 3 ? DIRECT3 : TIGHT; }
+template <int N> static Tol herm_tol_real() { return TIGHT; }
 
 template <int N> static void fam_svd_real(const Eigen::Matrix<double, N, N>& m) {
    run2<svd, double, double, N, N>(m, TIGHT);
@@ -605,6 +632,13 @@ static std::vector<Basis> bases(int N, bool with_complex) {
       v.push_back(T);
    }
    if (with_complex && N <= 3) { Basis B = ident(); rot(B, 0, 1, I1); v.push_back(B); }
+   {  // a generic rotation with integer columns (not a plane rotation): (3,4),(4,-3) | (1,2,2),(2,1,-2),(2,-2,1) | quaternion (1,2,2,4)
+      Basis Gn = ident();
+      const int g2[2][2] = {{3, 4}, {4, -3}}, g3[3][3] = {{1, 2, 2}, {2, 1, -2}, {2, -2, 1}};
+      const int g4[4][4] = {{1, 2, 2, 4}, {-2, 1, 4, -2}, {-2, -4, 1, 2}, {-4, 2, -2, 1}};
+      for (int k = 0; k < N; k++) for (int i = 0; i < N; i++) Gn.b[k][i] = N == 2 ? g2[k][i] : (N == 3 ? g3[k][i] : g4[k][i]);
+      v.push_back(Gn);
+   }
    return v;
 }
 static const double DD[] = {-2, -1, 0, 1, 2, 1e6};
@@ -625,32 +659,22 @@ template <int N> static Eigen::Matrix<cd, N, N> gen_qdq(const Basis& B, int sign
 
 template <int N> static bool is_real(const Eigen::Matrix<cd, N, N>& m) { for (int i = 0; i < N; i++) for (int j = 0; j < N; j++) if (m(i, j).imag() != 0) return false; return true; }
 
-template <int N> static long deg_count() { return (long)bases(N, true).size() * (1L << (N - 1)) * ipow(6, N) * 2; }
-template <int N> static void deg_run(long code, double sc) {
-   static const std::vector<Basis> bs = bases(N, true);
-   Dig d{code};
-   int conj2 = d.next(2);
-   const Basis& B = bs[d.next((int)bs.size())];
-   int signs = d.next(1 << (N - 1));
-   double dv[4]; for (int k = 0; k < N; k++) dv[k] = DD[d.next(6)];
+struct Known { Known(const double* d, int n, double sc, bool abs_only = false) { known_n = n; known_abs_only = abs_only; for (int k = 0; k < n; k++) known_d[k] = d[k] * sc; }
+               ~Known() { known_n = 0; known_abs_only = false; } };
+template <int N> static void deg_core(const Basis& B, int signs, const double* dv, int conj2, double sc) {
    if (!B.cplx && conj2) return;   // real basis: hermitian and symmetric constructions coincide
    Eigen::Matrix<cd, N, N> m = gen_qdq<N>(B, signs, dv, conj2, sc);
    // make the symmetry exact (the construction is exact for power-of-two n_k, ~1 ulp otherwise)
    for (int i = 0; i < N; i++) for (int j = 0; j < i; j++) m(i, j) = conj2 ? std::conj(m(j, i)) : m(j, i);
    if (conj2) for (int i = 0; i < N; i++) m(i, i) = m(i, i).real();
+   Known kn(dv, N, sc, B.cplx && !conj2);
    if (is_real<N>(m)) {
       Eigen::Matrix<double, N, N> r = m.real();
       fam_herm_real<N>(r); fam_sym_real<N>(r); fam_sym_cplx<N>(m); fam_herm_cplx<N>(m);
    } else if (conj2) fam_herm_cplx<N>(m);
    else fam_sym_cplx<N>(m);
 }
-// general matrices with repeated singular values: m = U diag(d) V^T
-template <int N> static long degsvd_count() { long nb = (long)bases(N, true).size(); return nb * nb * ipow(6, N); }
-template <int N> static void degsvd_run(long code, double sc) {
-   static const std::vector<Basis> bs = bases(N, true);
-   Dig d{code};
-   const Basis& BU = bs[d.next((int)bs.size())]; const Basis& BV = bs[d.next((int)bs.size())];
-   double dv[4]; for (int k = 0; k < N; k++) dv[k] = DD[d.next(6)];
+template <int N> static void degsvd_core(const Basis& BU, const Basis& BV, const double* dv, double sc) {
    Eigen::Matrix<cd, N, N> m;
    for (int i = 0; i < N; i++) for (int j = 0; j < N; j++) {
       CL x = 0;
@@ -660,8 +684,54 @@ template <int N> static void degsvd_run(long code, double sc) {
       }
       m(i, j) = cd((double)x.real(), (double)x.imag()) * sc;
    }
+   Known kn(dv, N, sc);
    if (is_real<N>(m)) { Eigen::Matrix<double, N, N> r = m.real(); fam_svd_real<N>(r); }
    fam_svd_cplx<N>(m);
+}
+template <int N> static long deg_count() { return (long)bases(N, true).size() * (1L << (N - 1)) * ipow(6, N) * 2; }
+template <int N> static void deg_run(long code, double sc) {
+   static const std::vector<Basis> bs = bases(N, true);
+   Dig d{code};
+   int conj2 = d.next(2);
+   const Basis& B = bs[d.next((int)bs.size())];
+   int signs = d.next(1 << (N - 1));
+   double dv[4]; for (int k = 0; k < N; k++) dv[k] = DD[d.next(6)];
+   deg_core<N>(B, signs, dv, conj2, sc);
+}
+// general matrices with repeated singular values: m = U diag(d) V^T
+template <int N> static long degsvd_count() { long nb = (long)bases(N, true).size(); return nb * nb * ipow(6, N); }
+template <int N> static void degsvd_run(long code, double sc) {
+   static const std::vector<Basis> bs = bases(N, true);
+   Dig d{code};
+   const Basis& BU = bs[d.next((int)bs.size())]; const Basis& BV = bs[d.next((int)bs.size())];
+   double dv[4]; for (int k = 0; k < N; k++) dv[k] = DD[d.next(6)];
+   degsvd_core<N>(BU, BV, dv, sc);
+}
+// hierarchical spectra: every N-tuple over {0,+-1e-6,+-1,+-1e6} (zero multiplets with lone eigenvalues of either sign, all sign
+// patterns, spreads 1e6 and 1e12) and over {0,1,+-1e-8,+-1e8} (spread 1e8 and 1e16), in every basis (diagonal and rotated)
+static const double SA[] = {0, 1, -1, 1e-6, -1e-6, 1e6, -1e6};
+static const double SB[] = {0, 1, 1e-8, -1e-8, 1e8, -1e8};
+template <int N> static long spr_nspec() { return ipow(7, N) + ipow(6, N); }
+template <int N> static void spr_spec(long idx, double* dv) {
+   if (idx < ipow(7, N)) { Dig d{idx}; for (int k = 0; k < N; k++) dv[k] = SA[d.next(7)]; }
+   else { Dig d{idx - ipow(7, N)}; for (int k = 0; k < N; k++) dv[k] = SB[d.next(6)]; }
+}
+template <int N> static long spr_count() { return (long)bases(N, true).size() * spr_nspec<N>() * 2; }
+template <int N> static void spr_run(long code, double sc) {
+   static const std::vector<Basis> bs = bases(N, true);
+   Dig d{code};
+   int conj2 = d.next(2);
+   const Basis& B = bs[d.next((int)bs.size())];
+   double dv[4]; spr_spec<N>(d.c, dv);
+   deg_core<N>(B, 0, dv, conj2, sc);
+}
+template <int N> static long sprsvd_count() { long nb = (long)bases(N, true).size(); return nb * nb * spr_nspec<N>(); }
+template <int N> static void sprsvd_run(long code, double sc) {
+   static const std::vector<Basis> bs = bases(N, true);
+   Dig d{code};
+   const Basis& BU = bs[d.next((int)bs.size())]; const Basis& BV = bs[d.next((int)bs.size())];
+   double dv[4]; spr_spec<N>(d.c, dv);
+   degsvd_core<N>(BU, BV, dv, sc);
 }
 
 // Yukawa-like 3x3: hierarchical diagonal times CKM-like rotation (fs_svd complex 3x3 as in the THDM)
@@ -716,12 +786,14 @@ static std::vector<Set> sets = {
    {"x32", ipow(4, 6), [](long c, double sc) { Dig d{c}; Eigen::Matrix<double, 3, 2> m; for (int i = 0; i < 3; i++) for (int j = 0; j < 2; j++) m(i, j) = A4[d.next(4)] * sc; fam_svd_rect<3, 2>(m); }},
    {"deg2", deg_count<2>(), deg_run<2>}, {"deg3", deg_count<3>(), deg_run<3>}, {"deg4", deg_count<4>(), deg_run<4>},
    {"degsvd2", degsvd_count<2>(), degsvd_run<2>}, {"degsvd3", degsvd_count<3>(), degsvd_run<3>},
+   {"spr2", spr_count<2>(), spr_run<2>}, {"spr3", spr_count<3>(), spr_run<3>}, {"spr4", spr_count<4>(), spr_run<4>},
+   {"sprsvd2", sprsvd_count<2>(), sprsvd_run<2>}, {"sprsvd3", sprsvd_count<3>(), sprsvd_run<3>},
 };
 
 static void report(const std::string& set) {
    for (auto& e : grps) {
       const Grp& G = e.second;
-      std::printf("GRP %s %s n=%ld fails=%ld rec=%.3e uni=%.3e val=%.3e seq=%ld fresh=%ld cls=", set.c_str(), e.first.c_str(), G.n, G.nfail, G.rec, G.uni, G.val, G.seq, G.fresh);
+      std::printf("GRP %s %s n=%ld fails=%ld rec=%.3e uni=%.3e val=%.3e seq=%ld fresh=%ld known=%ld ebr=%.3e cls=", set.c_str(), e.first.c_str(), G.n, G.nfail, G.rec, G.uni, G.val, G.seq, G.fresh, G.known, G.ebr);
       bool first = true;
       for (auto& c : G.cls) { std::printf("%s%s:%ld", first ? "" : ",", c.first.c_str(), c.second); first = false; }
       if (first) std::printf("-");
